@@ -248,16 +248,21 @@ func (m *m6) skipGuardedLoop(hdr *ssa.BasicBlock) (string, map[*ssa.BasicBlock]b
 			continue
 		}
 		cmp, ok := ifi.Cond.(*ssa.BinOp)
-		if !ok || cmp.Op != token.EQL {
+		if !ok || (cmp.Op != token.EQL && cmp.Op != token.NEQ) {
 			continue
+		}
+		// the edge taken when the length is zero
+		zeroSucc := 0
+		if cmp.Op == token.NEQ {
+			zeroSucc = 1
 		}
 		z, isZ := core.ConstInt(cmp.Y)
 		x, isLen := core.IsLenOf(cmp.X)
 		if !isZ || z != 0 || !isLen {
 			continue
 		}
-		// the true edge goes straight back: to the header or to its latch
-		if t := pred.Succs[0]; t != hdr && !(len(t.Succs) == 1 && t.Succs[0] == hdr && cl.loop.Blocks[t]) {
+		// the zero edge goes straight back: to the header or to its latch
+		if t := pred.Succs[zeroSucc]; t != hdr && !(len(t.Succs) == 1 && t.Succs[0] == hdr && cl.loop.Blocks[t]) {
 			continue
 		}
 		// x = K[idx]
